@@ -1,0 +1,222 @@
+//! Wrappers over pure crate-private functions.
+
+use std::{cmp::Ordering, num::NonZeroU64, time::Duration};
+
+use crate::{
+    alloc::{AllocOp, ThreadAllocInfo},
+    config::{
+        filter::{Filter, FilterSet},
+        SortingAttr,
+    },
+    counter::{AnyCounter, BytesFormat, KnownCounterKind},
+    time::{FineDuration, TscTimestamp},
+};
+
+pub fn ord(o: Ordering) -> i8 {
+    o as i8
+}
+
+/// `TscTimestamp::duration_since` in picoseconds.
+pub fn tsc_duration_since(later: u64, earlier: u64, frequency: u64) -> u128 {
+    let frequency = NonZeroU64::new(frequency).expect("non-zero frequency");
+    TscTimestamp { value: later }
+        .duration_since(TscTimestamp { value: earlier }, frequency)
+        .picos
+}
+
+/// `FineDuration::from(Duration)` in picoseconds.
+pub fn fine_from_duration(d: Duration) -> u128 {
+    FineDuration::from(d).picos
+}
+
+/// `FineDuration` `Display`.
+pub fn fine_display(
+    picos: u128,
+    precision: Option<usize>,
+    width: Option<usize>,
+) -> String {
+    let d = FineDuration { picos };
+    match (precision, width) {
+        (None, None) => format!("{d}"),
+        (Some(p), None) => format!("{d:.p$}"),
+        (None, Some(w)) => format!("{d:<w$}"),
+        (Some(p), Some(w)) => format!("{d:<w$.p$}"),
+    }
+}
+
+pub fn format_f64(val: f64, sig_figs: usize) -> String {
+    crate::util::fmt::format_f64(val, sig_figs)
+}
+
+fn bytes_format(binary: bool) -> BytesFormat {
+    if binary {
+        BytesFormat::Binary
+    } else {
+        BytesFormat::Decimal
+    }
+}
+
+pub fn format_bytes(val: f64, sig_figs: usize, binary: bool) -> String {
+    crate::util::fmt::format_bytes(val, sig_figs, bytes_format(binary))
+}
+
+/// `AnyCounter::display_throughput`; `kind` indexes `KnownCounterKind::ALL`.
+pub fn display_throughput(
+    kind: usize,
+    count: u64,
+    picos: u128,
+    binary: bool,
+    precision: Option<usize>,
+) -> String {
+    let counter =
+        AnyCounter::known(KnownCounterKind::ALL[kind], count as _);
+    let d = counter
+        .display_throughput(FineDuration { picos }, bytes_format(binary));
+    match precision {
+        None => format!("{d}"),
+        Some(p) => format!("{d:.p$}"),
+    }
+}
+
+pub fn natural_cmp(a: &str, b: &str) -> i8 {
+    ord(crate::util::sort::natural_cmp(a, b))
+}
+
+fn sorting_attr(attr: usize) -> SortingAttr {
+    [SortingAttr::Kind, SortingAttr::Name, SortingAttr::Location][attr]
+}
+
+/// `SortingAttr::cmp_bench_arg_names` on two elements of one names slice.
+pub fn cmp_bench_arg_names(
+    attr: usize,
+    names: &[&str],
+    i: usize,
+    j: usize,
+) -> i8 {
+    ord(sorting_attr(attr).cmp_bench_arg_names(&names[i], &names[j]))
+}
+
+/// Sorts argument names the way `EntryTree::sort_by_attr` sorts them.
+pub fn sort_bench_arg_names(
+    attr: usize,
+    reverse: bool,
+    names: &[&str],
+) -> Vec<usize> {
+    let attr = sorting_attr(attr);
+    let mut refs: Vec<&&str> = names.iter().collect();
+    refs.sort_by(|&a, &b| {
+        let ordering = attr.cmp_bench_arg_names(a, b);
+        if reverse {
+            ordering.reverse()
+        } else {
+            ordering
+        }
+    });
+    refs.into_iter()
+        .map(|r| crate::util::slice_ptr_index(names, r))
+        .collect()
+}
+
+/// A `FilterSet` built by a sequence of `include`/`exclude` calls.
+pub struct FilterLab {
+    set: FilterSet,
+    singles: Vec<Filter>,
+}
+
+impl FilterLab {
+    pub fn new() -> Self {
+        Self { set: FilterSet::default(), singles: Vec::new() }
+    }
+
+    fn make(exact: bool, text: &str) -> Filter {
+        if exact {
+            Filter::Exact(text.to_owned())
+        } else {
+            Filter::Regex(regex::Regex::new(text).expect("valid regex"))
+        }
+    }
+
+    pub fn insert(&mut self, inclusive: bool, exact: bool, text: &str) {
+        let filter = Self::make(exact, text);
+        if inclusive {
+            self.set.include(filter);
+        } else {
+            self.set.exclude(filter);
+        }
+        // Kept for the per-filter match matrix.
+        self.singles.push(Self::make(exact, text));
+    }
+
+    pub fn is_match(&self, path: &str) -> bool {
+        self.set.is_match(path)
+    }
+
+    /// Whether the `index`-th inserted filter alone matches `path`.
+    pub fn single_match(&self, index: usize, path: &str) -> bool {
+        let mut single = FilterSet::default();
+        let f = match &self.singles[index] {
+            Filter::Exact(s) => Filter::Exact(s.clone()),
+            Filter::Regex(r) => Filter::Regex(r.clone()),
+        };
+        single.include(f);
+        single.is_match(path)
+    }
+}
+
+/// One allocator operation as seen by the tally.
+#[derive(Clone, Copy, Debug)]
+pub enum TallyOp {
+    Alloc(usize),
+    Dealloc(usize),
+    Realloc(usize, usize),
+}
+
+/// Snapshot of a `ThreadAllocInfo`: per `[grow, shrink, alloc, dealloc]`
+/// `(count, size)`, then `max_count`, `max_size`.
+#[derive(Clone, Debug, PartialEq, Eq)]
+pub struct TallySnapshot {
+    pub ops: [(u64, u64); 4],
+    pub max_count: i64,
+    pub max_size: i64,
+}
+
+fn snapshot(info: &ThreadAllocInfo) -> TallySnapshot {
+    let mut ops = [(0, 0); 4];
+    for (i, op) in
+        [AllocOp::Grow, AllocOp::Shrink, AllocOp::Alloc, AllocOp::Dealloc]
+            .into_iter()
+            .enumerate()
+    {
+        let t = info.tallies.get(op);
+        ops[i] = (t.count as u64, t.size as u64);
+    }
+    TallySnapshot {
+        ops,
+        max_count: info.max_count as i64,
+        max_size: info.max_size as i64,
+    }
+}
+
+/// Applies `ops` to a fresh `ThreadAllocInfo`.
+pub fn tally_ops(ops: &[TallyOp]) -> TallySnapshot {
+    let mut info = ThreadAllocInfo::new();
+    for &op in ops {
+        match op {
+            TallyOp::Alloc(size) => info.tally_alloc(size),
+            TallyOp::Dealloc(size) => info.tally_dealloc(size),
+            TallyOp::Realloc(old, new) => info.tally_realloc(old, new),
+        }
+    }
+    snapshot(&info)
+}
+
+/// Snapshots and clears the calling thread's live tally (the one
+/// `AllocProfiler` writes to), or `None` if the slot is unavailable.
+pub fn thread_tally_take() -> Option<TallySnapshot> {
+    let mut info = ThreadAllocInfo::current()?;
+    // SAFETY: We have exclusive access.
+    let info = unsafe { info.as_mut() };
+    let snap = snapshot(info);
+    info.clear();
+    Some(snap)
+}
